@@ -176,15 +176,23 @@ func (e *env) bridgeCallFailures(r *rec, thorough bool) {
 		mode    string
 		disable int  // index of the token whose pair is disabled before execution (-1 none)
 		gas     bool // enumerate gas thresholds
+		// refundOther: the claim names a refund address that is not the receiving contract (the tokens delivered to the
+		// receiver have to be taken back from it before they go into the refund record)
+		refundOther bool
 	}
 	vs := []variant{
-		{"contract-ok(control)", []scen.Token{e.usdt}, "ok", -1, false},
-		{"revert-before-writes", []scen.Token{e.usdt}, "revert-before-writes", -1, false},
-		{"revert-after-writes", []scen.Token{e.usdt}, "revert-after-writes", -1, false},
-		{"revert-after-writes/2-tokens", []scen.Token{e.usdt, e.fx}, "revert-after-writes", -1, false},
-		{"token-1-of-2-disabled", []scen.Token{e.usdt, e.fx}, "ok", 0, false},
-		{"token-1-of-1-disabled", []scen.Token{e.usdt}, "ok", 0, false},
-		{"gas-exhaustion-at-every-threshold", []scen.Token{e.usdt}, "ok", -1, true},
+		{"contract-ok(control)", []scen.Token{e.usdt}, "ok", -1, false, false},
+		{"revert-before-writes", []scen.Token{e.usdt}, "revert-before-writes", -1, false, false},
+		{"revert-after-writes", []scen.Token{e.usdt}, "revert-after-writes", -1, false, false},
+		{"revert-after-writes/2-tokens", []scen.Token{e.usdt, e.fx}, "revert-after-writes", -1, false, false},
+		{"token-1-of-2-disabled", []scen.Token{e.usdt, e.fx}, "ok", 0, false, false},
+		{"token-1-of-1-disabled", []scen.Token{e.usdt}, "ok", 0, false, false},
+		{"gas-exhaustion-at-every-threshold", []scen.Token{e.usdt}, "ok", -1, true, false},
+	}
+	for _, v := range vs[:6] {
+		v.name += "/refund-to-third-party"
+		v.refundOther = true
+		vs = append(vs, v)
 	}
 	for _, v := range vs {
 		base := world.Branch(e.ctx)
@@ -196,7 +204,11 @@ func (e *env) bridgeCallFailures(r *rec, thorough bool) {
 			toks = append(toks, t.Ext["eth"])
 			amts = append(amts, sdkmath.NewInt(5))
 		}
-		claim := &cctypes.MsgBridgeCallClaim{ChainName: "eth", EventNonce: n, BlockHeight: 1001, Sender: scen.ExtAddr("eth", "depositor"), Refund: callee.String(),
+		refund := callee
+		if v.refundOther {
+			refund = w.A("u1").Hex()
+		}
+		claim := &cctypes.MsgBridgeCallClaim{ChainName: "eth", EventNonce: n, BlockHeight: 1001, Sender: scen.ExtAddr("eth", "depositor"), Refund: refund.String(),
 			TokenContracts: toks, Amounts: amts, To: callee.String(), Data: "", Value: sdkmath.ZeroInt(), Memo: "", TxOrigin: scen.ExtAddr("eth", "origin")}
 		if vr := scen.Vote(w, base, "eth", e.os[0], claim); !vr.OK() {
 			r.viol("C18/harness/bridge-call-claim-rejected/"+v.name, "harness", vr.String(), v.name)
@@ -254,6 +266,10 @@ func (e *env) bridgeCallFailures(r *rec, thorough bool) {
 				return fmt.Sprintf("usdt-erc20=%s usdt-coin=%s fx=%s", scen.BalanceOf(w, c, e.usdt.ERC20, callee), w.App.BankKeeper.GetBalance(c, callee.Bytes(), "usdt").Amount, w.App.BankKeeper.GetBalance(c, callee.Bytes(), "FX").Amount)
 			}
 			holdPre := calleeHold(ctx)
+			refundHold := func(c sdk.Context) string {
+				return fmt.Sprintf("usdt-erc20=%s usdt-coin=%s", scen.BalanceOf(w, c, e.usdt.ERC20, refund), w.App.BankKeeper.GetBalance(c, refund.Bytes(), "usdt").Amount)
+			}
+			refundPre := refundHold(ctx)
 			u2Pre := scen.BalanceOf(w, ctx, e.usdt.ERC20, w.A("u2").Hex())
 			er := exec(xctx)
 			r.res.Transitions++
@@ -296,7 +312,7 @@ func (e *env) bridgeCallFailures(r *rec, thorough bool) {
 						got[t.Contract] = t.Amount.String()
 					}
 				}
-				if fmt.Sprint(want) != fmt.Sprint(got) || oc == nil || oc.Refund != callee.String() || oc.EventNonce != n {
+				if fmt.Sprint(want) != fmt.Sprint(got) || oc == nil || oc.Refund != refund.String() || oc.EventNonce != n {
 					r.viol("C18/refund-record-differs-from-claim/"+v.name, "designated-outcome-present", fmt.Sprintf("%s: claim tokens %v, refund record %+v", name, want, oc), name)
 				}
 				if stillPending {
@@ -312,6 +328,9 @@ func (e *env) bridgeCallFailures(r *rec, thorough bool) {
 				// no account changed: the callee (receiver == refund address) ends with what it had
 				if h := calleeHold(ctx); h != holdPre {
 					r.viol("C18/account-changed-by-tolerated-bridge-call-failure/"+v.name, "nothing-but-the-designated-outcome", fmt.Sprintf("%s: callee holdings %s -> %s although the tokens went into the refund record", name, holdPre, h), name)
+				}
+				if h := refundHold(ctx); h != refundPre {
+					r.viol("C18/account-changed-by-tolerated-bridge-call-failure/"+v.name, "nothing-but-the-designated-outcome", fmt.Sprintf("%s: holdings of the refund address %s -> %s although the tokens went into the refund record", name, refundPre, h), name)
 				}
 			case "executed":
 				if v.mode != "ok" || v.disable >= 0 {
